@@ -95,7 +95,21 @@ ParseLong == /\ op = "init" /\ op' = "parse"
                   /\ lit' = [sign |-> s, ip |-> x.ip, fp |-> x.fp, fd |-> fd]
                   /\ res' = ParseDec(s, x.ip, x.fp, fd)
              /\ UNCHANGED <<a, b>>
-Next == Cmp \/ Unary \/ Parse \/ ParseLong
+\* what a literal denotes at a precision does not depend on what was parsed before.  The pairs taken here are adjacent as
+\* TEXTS: the second literal is the first followed by the first digit of the first precision, parsed at the precision that
+\* is the last digit of the first ("1.1" at 12, then "1.11" at 2) - whoever remembers results by the two written next to each
+\* other confuses them
+AfterMags == { <<1, 1>>, <<5>>, <<7, 5>>, <<1, 2, 0>>, <<9, 9>> }
+ParseAfter == /\ op = "init" /\ op' = "parse"
+              /\ \E m \in AfterMags, s \in Signs, f1 \in {11, 12, 17, 18} : \E k \in 0..Len(m) :
+                   LET ip == IF k = Len(m) THEN <<0>> ELSE SubSeq(m, 1, Len(m) - k)
+                       fp1 == SubSeq(m, Len(m) - k + 1, Len(m))
+                       fp2 == fp1 \o << f1 \div 10 >>
+                       fd2 == f1 % 10
+                   IN /\ lit' = [sign |-> s, ip |-> ip, fp |-> fp2, fd |-> fd2, before |-> [ip |-> ip, fp |-> fp1, fd |-> f1]]
+                      /\ res' = ParseDec(s, ip, fp2, fd2)
+              /\ UNCHANGED <<a, b>>
+Next == Cmp \/ Unary \/ Parse \/ ParseLong \/ ParseAfter
 Spec == Init /\ [][Next]_vars
 
 \* ---- laws checked on the model itself ------------------------------------------
